@@ -106,6 +106,7 @@ def gen_script(rnd):
     fam = set()
     shapes = set()
     p = 21888242871839275222246405745257275088548364400416034343698204186575808495617
+    lines.append("G0 = PrivVal(11)")
     fnames = rnd.sample(["f0", "f1", "f2", "f_0", "f.0", "f-0", "mix.col", "mix_col", "g1", "G1"], nfun)
     for k in range(nfun):
         ar = rnd.randint(1, 3)
@@ -115,7 +116,10 @@ def gen_script(rnd):
         for j in range(rnd.randint(1, 4)):
             x, y = rnd.choice(names), rnd.choice(names)
             c = rnd.random()
-            if c < 0.35:
+            if rnd.random() < 0.05:
+                # a variable of the caller captured by the function body (user error): the splitter has to report the mixed equation
+                st, f = rnd.choice(["%s * G0", "G0 * %s", "%s + G0 * %s"]).replace("%s", x), "closure-captures-caller-variable"
+            elif c < 0.35:
                 st, f = "%s * %s" % (x, y), "mul"
             elif c < 0.5:
                 st, f = "%s + %s * %d" % (x, y, rnd.randint(-3, 3)), "lin"
@@ -148,6 +152,9 @@ def gen_script(rnd):
             names.append(nm)
         nres = rnd.randint(1, 2)
         res = [rnd.choice(names[ar:] or names) for _ in range(nres)]
+        if nres == 2 and rnd.random() < 0.25:
+            res[1] = res[0]                      # the same callee wire returned twice
+            shapes.add("same-wire-returned-twice")
         if rnd.random() < 0.3:
             res[0] = "%s + %s" % (res[0], rnd.choice(names))     # a result that is not a single wire
             shapes.add("result-sum")
@@ -194,8 +201,14 @@ def gen_script(rnd):
         if funs and rnd.random() < 0.7:
             g, gar, gres = rnd.choice(funs)
             args = []
+            same = rnd.choice(names) if (gar > 1 and rnd.random() < 0.2) else None      # f(x, x): one caller wire for several parameters
+            if same is not None:
+                shapes.add("same-wire-for-several-parameters")
             for ai in range(gar):
-                x = rnd.choice(names)
+                x = same or rnd.choice(names)
+                if same is not None:
+                    args.append(x)
+                    continue
                 c = rnd.random() * (0.85 if ai == 0 else 1.0)      # a0 is always a circuit value (bodies call methods on it)
                 if c < 0.45:
                     args.append(x)
@@ -392,6 +405,15 @@ def validate(R, qap, wd, src, cell, err, rc, digests):
             mixed += 1
             foreign = {v for x in (A, B, C) for _, v in x if qap.context_of(v) != ev[1]}
             mech = "constant-one-wire-of-main-inside-subcircuit" if foreign == {"main/onex"} and ev[1] != "main" else "equation-mixes-contexts"
+            if mech == "equation-mixes-contexts" and "closure-captures-caller-variable" in cell:
+                # the script itself mixes contexts (a captured variable of the caller): what is owed is the splitter's report
+                R.count("deliberately_mixed_equations")
+                if "*** qaptools subroutines:" in err or "Inconsistent contexts" in err:
+                    if "Inconsistent contexts" not in err:
+                        problems.append(("mixed-context-equation-not-reported", "an equation over variables of contexts %s went through the splitter unreported: %s" % (sorted(ctxs), line[:160])))
+                    else:
+                        R.count("mixed_equation_reported_by_splitter")
+                continue
             problems.append((mech, "equation traced in context %s over variables of contexts %s: %s" % (ev[1], sorted(ctxs), line[:160])))
     # (4) per-function files vs an independent split of the complete equation file
     calls, order, sets = qap.split_reference(items)
